@@ -146,7 +146,8 @@ def ob_window_paths(W, L, P):
     import speckit.utils as U
     ref = rnp.kaiser(L + 1, U.kaiser_alpha(P) * rnp.pi)[:-1]
     for tag, (poly, w) in d["polys"].items():
-        W.goal("window[%s] = kaiser(L+1, alpha*pi)[:-1]" % tag, len(w) == L and bool(rnp.array_equal(w, ref)))
+        # (to 1e-9: the side-lobe obligations decide the property for the exact captured window; this one only names gross deviations)
+        W.goal("window[%s] = kaiser(L+1, alpha*pi)[:-1]" % tag, len(w) == L and bool(rnp.allclose(w, ref, rtol=0, atol=1e-9 * float(rnp.max(rnp.abs(ref))))))
 
 
 def obligations(tier):
